@@ -186,6 +186,7 @@ type Exec struct {
 	factSet map[string]int
 	qstack  []*qframe
 	escaped []escapedLit
+	negateFilter bool
 	lockSeq int
 	parentClosures map[int]*Contract
 	invLocs map[string][]string
